@@ -509,7 +509,7 @@ def _ok_summary(F, g):
     the relations (over g's own parameters) that hold on every path building Ok/Some, and how the
     payload is derived. Returns (rels, payload) or None."""
     rt = g.tys(0)
-    if not (rt.startswith("std::result::Result<&") or rt.startswith("std::option::Option<&")):
+    if not (rt.startswith("std::result::Result<") or rt.startswith("std::option::Option<")):
         return None
     usizes = [i for i in range(1, g.argc + 1) if g.tys(i) == "usize"]
     state = {0: frozenset()}
@@ -708,6 +708,37 @@ def r_helper(F, cfg):
                                 "NOREM": "no unprocessed remainder"}[cl]
                         R.violation("helper:%s:%s" % (b.name, cl), b.where(n),
                                     "%s can return Ok on a path that never established that %s" % (b.name, what))
+        # the validator's result may also be the result of a local helper called in tail position
+        # (`expect_no_remainder(buffer.len())`): Ok then carries the relations of that helper's Ok paths
+        for bi, t in b.calls():
+            if t.get("d") != [0] or bi not in state:
+                continue
+            c = F.callee_of(t)
+            if c and c["p"].endswith("FromResidual::from_residual"):
+                continue    # the Err arm of `?`: the residual of a Result is always Err
+            g = F.bodies.get(c.get("res", c["id"])) if c and c.get("local") else None
+            summ = _ok_summary(F, g) if g is not None else None
+            if summ is None:
+                R.violation("helper:%s:opaque-result" % b.name, b.where(t),
+                            "%s returns the result of %s, whose Ok paths cannot be summarised" % (b.name, c["p"] if c else "an indirect call"))
+                oks += 1
+                continue
+            oks += 1
+            st = set(block_transfer(bi, state[bi]))
+            for rel in summ[0]:
+                st |= gen(_subst_rel(F, b, rel, g, t, usizes))
+            for cl in sorted(need):
+                if cl == "NOREM":
+                    sat = "NOREM0" in st or "MODOK" in st or (("REM1" in st or "MOD1" in st) and "CALLED1" in st)
+                else:
+                    sat = cl in st
+                if sat:
+                    R.ok({"validator": b.name, "ok_via": g.name, "class": cl, "facts": sorted(st)}, nontrivial=True, sample_cap=10)
+                else:
+                    what = {"SCRATCH": "scratch.len() >= required_scratch", "EQLEN": "the two data lengths are equal",
+                            "NOREM": "no unprocessed remainder"}[cl]
+                    R.violation("helper:%s:%s" % (b.name, cl), b.where(t),
+                                "%s can return Ok (through %s) on a path that never established that %s" % (b.name, g.name, what))
         if oks == 0:
             R.violation("helper:%s:no-ok" % b.name, b.where(), "%s never returns Ok" % b.name)
         _loop_shape(F, b, R, data, scratch, chunk, required, fns, unroll, usizes)
